@@ -440,6 +440,9 @@ struct Expect {
     /// service (not a default) won at that level
     guard_skipped: bool,
     depth: usize,
+    /// F26 class of the request: the search falls through to the default inside a scope that has
+    /// no default service of its own and whose nearest enclosing default is a scope's, not the app's
+    in_f26_class: bool,
     /// sum of the matched lengths along the chain
     consumed: usize,
     notes: Vec<String>,
@@ -457,7 +460,9 @@ fn match_one(text: &str, prefix: bool, rest: &str) -> Option<(usize, Vec<(String
     }
 }
 
-fn walk(kids: &[Node], dflt: Hnd, r: &Rq, e: &mut Expect, chain_pat: String) {
+/// [own]: the default of this level was set on this very scope / app; [from_scope]: it was set on
+/// some scope (this one or an enclosing one), not on the app
+fn walk(kids: &[Node], dflt: Hnd, own: bool, from_scope: bool, r: &Rq, e: &mut Expect, chain_pat: String) {
     let mut skipped_here = false;
     for k in kids {
         let (texts, prefix, gs) = match k {
@@ -504,16 +509,17 @@ fn walk(kids: &[Node], dflt: Hnd, r: &Rq, e: &mut Expect, chain_pat: String) {
                     e.stack.push(d.clone());
                 }
                 // nearest enclosing default
-                let d2 = match sd {
-                    Some(d) => Hnd::Default(*d),
-                    None => dflt.clone(),
+                let (d2, own2, from2) = match sd {
+                    Some(d) => (Hnd::Default(*d), true, true),
+                    None => (dflt.clone(), false, from_scope),
                 };
-                walk(kids, d2, r, e, pat);
+                walk(kids, d2, own2, from2, r, e, pat);
             }
         }
         return;
     }
     e.hnd = dflt;
+    e.in_f26_class = !own && from_scope;
 }
 
 fn oracle_expect(app: &AppT, r: &Rq) -> Expect {
@@ -526,6 +532,7 @@ fn oracle_expect(app: &AppT, r: &Rq) -> Expect {
         pattern: None,
         guard_skipped: false,
         depth: 0,
+        in_f26_class: false,
         consumed: 0,
         notes: vec![],
     };
@@ -533,7 +540,7 @@ fn oracle_expect(app: &AppT, r: &Rq) -> Expect {
         Some(d) => Hnd::Default(d),
         None => Hnd::H404,
     };
-    walk(&app.kids, d, r, &mut e, String::new());
+    walk(&app.kids, d, true, false, r, &mut e, String::new());
     e
 }
 
@@ -608,6 +615,19 @@ fn judge(app: &AppT, r: &Rq, a: &Answer) -> (Result<(), String>, Expect) {
         Ok(())
     })();
     (res, e)
+}
+
+/// F26 class of a table: a default-less scope nested (at any depth) in a scope with a custom default
+/// (mirrors `bad_in` / `Known` of coq/theories/Router/RouteSpec.v)
+fn bad_in(ctx: bool, n: &Node) -> bool {
+    match n {
+        Node::R { .. } => false,
+        Node::S { kids, dflt: None, .. } => ctx || kids.iter().any(|k| bad_in(ctx, k)),
+        Node::S { kids, dflt: Some(_), .. } => kids.iter().any(|k| bad_in(true, k)),
+    }
+}
+fn table_in_f26_class(app: &AppT) -> bool {
+    app.kids.iter().any(|k| bad_in(false, k))
 }
 
 // ---------------------------------------------------------------------------------- generator
@@ -715,7 +735,7 @@ fn gen_resource(rng: &mut Rng, ids: &mut Ids, pats: Pats, force_guard: bool) -> 
     let routes = (0..nroutes)
         .map(|i| {
             // the last route is often unguarded (`.to(handler)`)
-            let gs = if i + 1 == nroutes && rng.chance(1, 2) { vec![] } else { gen_guards(rng, 70) };
+            let gs = if i + 1 == nroutes && rng.chance(1, 2) { vec![] } else { gen_guards(rng, 55) };
             (gs, ids.next())
         })
         .collect();
@@ -868,7 +888,30 @@ fn mutate(rng: &mut Rng, p: &str) -> String {
     }
     s
 }
+fn guard_atoms(g: &G, out: &mut Vec<G>) {
+    match g {
+        G::All(l) | G::Any(l) => l.iter().for_each(|x| guard_atoms(x, out)),
+        G::Not(g) => guard_atoms(g, out),
+        a => out.push(a.clone()),
+    }
+}
+fn table_atoms(kids: &[Node], out: &mut Vec<G>) {
+    for k in kids {
+        match k {
+            Node::R { g, routes, .. } => {
+                g.iter().for_each(|x| guard_atoms(x, out));
+                routes.iter().for_each(|(gs, _)| gs.iter().for_each(|x| guard_atoms(x, out)));
+            }
+            Node::S { g, kids, .. } => {
+                g.iter().for_each(|x| guard_atoms(x, out));
+                table_atoms(kids, out);
+            }
+        }
+    }
+}
 fn gen_req(rng: &mut Rng, app: &AppT) -> Rq {
+    let mut atoms = vec![];
+    table_atoms(&app.kids, &mut atoms);
     let base = gen_hit(rng, &app.kids);
     let base = if base.starts_with('/') { base } else { format!("/{base}") };
     let path = match rng.below(10) {
@@ -883,7 +926,7 @@ fn gen_req(rng: &mut Rng, app: &AppT) -> Rq {
             s
         }
     };
-    Rq {
+    let mut rq = Rq {
         m: if rng.chance(1, 2) { 0 } else { rng.below(4) as u8 },
         host: match rng.below(4) {
             0 | 1 => None,
@@ -891,7 +934,20 @@ fn gen_req(rng: &mut Rng, app: &AppT) -> Rq {
         },
         hdrs: (0..rng.below(3)).map(|_| (rng.below(2) as u8, rng.below(3) as u8)).collect(),
         path,
+    };
+    // two times out of three, take method / host / headers from the guards of the table
+    if !atoms.is_empty() && rng.chance(2, 3) {
+        rq.hdrs.clear();
+        for _ in 0..rng.range(1, 4) {
+            match rng.pick(&atoms) {
+                G::M(m) => rq.m = *m,
+                G::Host(h) => rq.host = Some(*h),
+                G::H(n, v) => rq.hdrs.push((*n, *v)),
+                _ => {}
+            }
+        }
     }
+    rq
 }
 
 // -------------------------------------------------------------------------------------- driver
@@ -983,16 +1039,25 @@ fn emit_case(em: &mut Emitter, id: String, mut c: Case) {
         node_texts(k, &mut text);
     }
     text.push('#');
-    let (expect, show, ok, why, nontrivial) = match &r {
+    let (expect, show, ok, why, nontrivial, known_class) = match &r {
         Ok(answers) => {
             let mut verdict: Result<(), String> = Ok(());
+            let mut known_only = true;
             let mut handlers = std::collections::BTreeSet::new();
             let mut deep_route = false;
             for (i, (rq, a)) in c.reqs.iter().zip(answers).enumerate() {
                 text.push_str(&answer_text(a));
                 let (res, e) = judge(&c.app, rq, a);
-                if let (Err(m), true) = (&res, verdict.is_ok()) {
-                    verdict = Err(format!("request {i} {:?}: {m}", rq.path));
+                if let Err(m) = &res {
+                    let known = e.in_f26_class && table_in_f26_class(&c.app);
+                    if known {
+                        tags.push("F26-request".into());
+                    }
+                    // a failure outside the class takes precedence in the report
+                    if verdict.is_ok() || (known_only && !known) {
+                        verdict = Err(format!("request {i} {:?}: {m}", rq.path));
+                    }
+                    known_only = known_only && known;
                 }
                 tags.push(
                     match e.hnd {
@@ -1025,13 +1090,17 @@ fn emit_case(em: &mut Emitter, id: String, mut c: Case) {
                 handlers.insert(format!("{:?}", e.hnd));
             }
             let nt = handlers.len() >= 2 && deep_route;
-            (Some(format!("(VH {})", q(&text))), text.clone(), verdict.is_ok(), verdict.err().unwrap_or_default(), nt)
+            let kc = if verdict.is_err() && known_only { "F26-nested-scope-default" } else { "" };
+            (Some(format!("(VH {})", q(&text))), text.clone(), verdict.is_ok(), verdict.err().unwrap_or_default(), nt, kc)
         }
         Err(p) => {
             em.panics += 1;
-            (None, format!("PANIC {p}"), false, format!("implementation panicked: {p}"), false)
+            (None, format!("PANIC {p}"), false, format!("implementation panicked: {p}"), false, "")
         }
     };
+    if table_in_f26_class(&c.app) {
+        tags.push("table:F26-class".into());
+    }
     // per-request tags are counted once per request; table tags once per case
     em.emit(CaseOut {
         id,
@@ -1042,7 +1111,7 @@ fn emit_case(em: &mut Emitter, id: String, mut c: Case) {
         impl_show: show,
         oracle_ok: ok,
         oracle_why: why,
-        known_class: String::new(),
+        known_class: known_class.to_string(),
         nontrivial,
         tags,
     });
